@@ -170,6 +170,16 @@ Theorem toobig_or_truncated_refuted :
 Proof. exact toobig_or_truncated_refuted_lemma. Qed.
 Print Assumptions toobig_or_truncated_refuted.
 
+(* ... and the whole class of such inputs (known finding C08-reserve-valueerror): whenever the OPT reserve exceeds
+   the effective limit, or the TSIG reserve exceeds what the OPT reserve left of it, to_wire raises the
+   ValueError of Renderer.reserve, with and without prefer_truncation, for every origin and padding *)
+Theorem reserve_overflow_valueerror_refuted : forall m o max_size request_payload prefer pad,
+  (eff_limit max_size request_payload < compute_opt_reserve m pad \/
+   exists t, compute_tsig_reserve m = Ok t /\ eff_limit max_size request_payload - compute_opt_reserve m pad < t) ->
+  to_wire m o max_size request_payload prefer pad = Internal iValueError.
+Proof. exact reserve_valueerror_lemma. Qed.
+Print Assumptions reserve_overflow_valueerror_refuted.
+
 (* ---- dns.renderer.Renderer used directly ---- *)
 (* a Renderer created with max_size, after ANY sequence of add_question / add_rrset / reserve /
    release_reserved / add_opt (any padding arguments) / write_header / _write_tsig calls in any order, with
@@ -182,7 +192,9 @@ Theorem renderer_api_invariant : forall origin id flags max_size ops res r,
   12 <= zlen (out r) <= Z.max 12 max_size /\
   cq r + can r + cau r + cad r = accepted origin id ops (mkRst (repeat 0 12) [] 0 0 0 0 0 flags max_size 0 false) /\
   Forall (fun kv => snd kv < zlen (out r)) (tbl r) /\
-  TableSound (out r) (tbl r).
+  TableSound (out r) (tbl r) /\
+  (* the budget: what reserve() took is exactly what release_reserved() gives back *)
+  (maxsz r + reserved r = max_size /\ 0 <= reserved r).
 Proof. exact renderer_api_invariant_lemma. Qed.
 Print Assumptions renderer_api_invariant.
 
